@@ -107,14 +107,18 @@ PixelOK(g, ext, q, i, j, obs) ==
 \* the pixel's own extent; nothing shown outside the layer extent, nothing blank inside it (two pixels: the request is
 \* answered from tiles cut at the extent, as for requests reaching beyond it above).
 ReprojDist(c0, c1, v) == Max3(0, c0 - v, v - c1)
-ReprojPixelOK(g, ext, p, obs) ==
+ReprojPixelOK(g, exts, bound, p, obs) ==
   LET l  == obs[1]
       x0 == 1000 * (g.bbox[1] + obs[2] * Res(g, l))        x1 == 1000 * (g.bbox[1] + (obs[2] + 1) * Res(g, l))
       y0 == 1000 * (g.bbox[2] + obs[3] * Res(g, l))        y1 == 1000 * (g.bbox[2] + (obs[3] + 1) * Res(g, l))
-      in(k)  == /\ p.gx - k * p.fx >= 1000 * ext[1] /\ p.gx + k * p.fx <= 1000 * ext[3]
+      \* what the layer covers is a union of rectangles (one for a grid or a bbox coverage); its extent `bound` is their
+      \* bounding box.  Tiles that meet the coverage are fetched whole (a coverage does not clip unless it is told to):
+      \* inside the extent content may be shown outside the coverage, it has to be the content of that place all the same
+      in(k)  == \E ext \in exts :
+                /\ p.gx - k * p.fx >= 1000 * ext[1] /\ p.gx + k * p.fx <= 1000 * ext[3]
                 /\ p.gy - k * p.fy >= 1000 * ext[2] /\ p.gy + k * p.fy <= 1000 * ext[4]
-      out(k) == \/ p.gx + k * p.fx < 1000 * ext[1] \/ p.gx - k * p.fx > 1000 * ext[3]
-                \/ p.gy + k * p.fy < 1000 * ext[2] \/ p.gy - k * p.fy > 1000 * ext[4]
+      out(k) == \/ p.gx + k * p.fx < 1000 * bound[1] \/ p.gx - k * p.fx > 1000 * bound[3]
+                \/ p.gy + k * p.fy < 1000 * bound[2] \/ p.gy - k * p.fy > 1000 * bound[4]
   IN /\ p.fx > 0 /\ p.fy > 0
      /\ l # -1 => /\ l \in Levels(g)
                   /\ 2 * ReprojDist(x0, x1, p.gx) <= 3 * p.fx
